@@ -472,6 +472,24 @@ M('twin-tool-reads-link-once', 'twin', ['C20'], [],
    (GEN, "                        udf_target = os.readlink(localpath)\n", "                        udf_target = target\n")])
 
 
+# ---- cache coherence (the same mistake, five times in three seeding rounds)
+M('cache-memo-key-loses-a-parameter', 'fault', ['C18'], ['SA-CACHE.coherent.utils'],
+  [(UT, "def ceiling_div(numer, denom):", "_CDIV = {}  # type: ignore\n\n\ndef padded_len(length, blocksize):\n    # type: (int, int) -> int\n    if length not in _CDIV:\n        _CDIV[length] = ((length + blocksize - 1) // blocksize) * blocksize\n    return _CDIV[length]\n\n\ndef ceiling_div(numer, denom):")], 'blocksize')
+M('twin-cache-memo-keyed-on-all-parameters', 'twin', ['C18'], [],
+  [(UT, "def ceiling_div(numer, denom):", "_CDIV = {}  # type: ignore\n\n\ndef padded_len(length, blocksize):\n    # type: (int, int) -> int\n    key = (length, blocksize)\n    if key not in _CDIV:\n        _CDIV[key] = ((length + blocksize - 1) // blocksize) * blocksize\n    return _CDIV[key]\n\n\ndef ceiling_div(numer, denom):")])
+M('cache-lru-on-method-reading-state', 'fault', ['C02'], ['SA-CACHE.coherent.pycdlib'],
+  [(PY, "    def has_rock_ridge(self):\n", "    @functools.lru_cache(maxsize=None)\n    def has_rock_ridge(self):\n")], 'never cache_clear')
+M('twin-cache-lru-on-pure-function', 'twin', ['C18', 'C02'], [],
+  [(UT, "def ceiling_div(numer, denom):", "@functools.lru_cache(maxsize=64)\ndef ceiling_div(numer, denom):"), (UT, "import io\n", "import functools\nimport io\n")])
+M('cache-gmtoffset-per-hour-and-zone-name', 'fault', ['C19'], ['SA-CACHE.coherent.dates', 'SA-DATE.instant'],
+  [(DT, "class DirectoryRecordDate:\n", "_OFFSETS = {}  # type: ignore\n\n\ndef gmtoffset_for(tm, local):\n    # type: (float, time.struct_time) -> int\n    key = (time.tzname, int(tm) // 3600)\n    if key not in _OFFSETS:\n        _OFFSETS[key] = utils.gmtoffset_from_tm(tm, local)\n    return _OFFSETS[key]\n\n\nclass DirectoryRecordDate:\n"),
+   (DT, "        self.second = local.tm_sec\n        self.gmtoffset = utils.gmtoffset_from_tm(tm, local)\n        self._initialized = True\n", "        self.second = local.tm_sec\n        self.gmtoffset = gmtoffset_for(tm, local)\n        self._initialized = True\n")], 'does not contain unmodified')
+M('cache-lazy-header-size-from-constants', 'twin', ['C12'], [],
+  [(ISOH, GPT_SLOTS, "    __slots__ = ('_initialized', 'is_primary', 'header', 'parts', 'apm_parts', '_hsize')\n"),
+   (ISOH, "        self.apm_parts = []  # type: List[APMPartHeader]\n        self._initialized = False\n", "        self.apm_parts = []  # type: List[APMPartHeader]\n        self._hsize = None  # type: Optional[int]\n        self._initialized = False\n"),
+   (ISOH, "        part_data = b''.join(tmplist)\n\n        if self.is_primary:", "        part_data = b''.join(tmplist)\n        if self._hsize is None:\n            self._hsize = struct.calcsize(GPTHeader.FMT)\n\n        if self.is_primary:")])
+
+
 def applicable(m, sources):
     for rel, old, new in m['edits']:
         src = sources.get(rel)
